@@ -65,7 +65,7 @@ class BasicOptimizer:
             constraint_tolerance: The tolerance level used to detect constraint violations.
             kwargs:               Optional keywords that may be passed to optimization code.
         """
-        self._config = EnOptConfig.model_validate(enopt_config)
+        self._config = EnOptConfig.model_validate(enopt_config, context=transforms)
         self._transforms = transforms
         self._constraint_tolerance = constraint_tolerance
         self._optimizer_context = OptimizerContext(evaluator=evaluator)
